@@ -160,6 +160,36 @@ end Sem
 
 /-! ## From skeletons to micro-steps -/
 
+/-- a skeleton flattened to a token sequence (`withLock l body` ↦ `enter l … exit l`) -/
+inductive Tok
+  | enter (l : LockId)
+  | exit (l : LockId)
+  | read (x : Var)
+  | write (x : Var)
+  | rmw (x : Var)
+  | copy (x : Var)
+  | iterB (x : Var)
+  | iterE (x : Var)
+  | call (user : Bool) (c : Callee)
+  | yield
+deriving DecidableEq, Repr
+
+mutual
+def flat : Sk → List Tok
+  | .withLock l body => .enter l :: (flatList body ++ [.exit l])
+  | .read x => [.read x]
+  | .write x => [.write x]
+  | .rmw x => [.rmw x]
+  | .copy x => [.copy x]
+  | .iterate x body => .iterB x :: (flatList body ++ [.iterE x])
+  | .callUser c => [.call true c]
+  | .callLib c => [.call false c]
+  | .yield => [.yield]
+def flatList : List Sk → List Tok
+  | [] => []
+  | s :: r => flat s ++ flatList r
+end
+
 section Compile
 variable {L X U : Type}
 
@@ -171,40 +201,46 @@ structure Binding (L X U : Type) where
   /-- label of the store a `write x` / `rmw x` performs -/
   upd : Var → U
 
-mutual
-/-- compile a skeleton without expanding callbacks (`callUser` stays a marker) -/
-def compile0 (b : Binding L X U) : Sk → List (Micro L X U)
-  | .withLock l body => .acquire (b.lock l) :: (compileList0 b body ++ [.release (b.lock l)])
+/-- micro-steps of one token; `cb c` is the (already compiled) code the callee `c` runs, spliced after the call marker.
+`rmw x` is `load x; store x` — the window a thread switch may fall into. -/
+def tokMicro (b : Binding L X U) (cb : Callee → List (Micro L X U)) : Tok → List (Micro L X U)
+  | .enter l => [.acquire (b.lock l)]
+  | .exit l => [.release (b.lock l)]
   | .read x => [.load (b.var x)]
   | .write x => [.store (b.var x) (b.upd x)]
   | .rmw x => [.load (b.var x), .store (b.var x) (b.upd x)]
   | .copy x => [.load (b.var x)]
-  | .iterate x body => .iterBegin (b.var x) :: (compileList0 b body ++ [.iterEnd (b.var x)])
-  | .callUser c => [.call true c]
-  | .callLib c => [.call false c]
+  | .iterB x => [.iterBegin (b.var x)]
+  | .iterE x => [.iterEnd (b.var x)]
+  | .call u c => .call u c :: cb c
   | .yield => [.yield]
-def compileList0 (b : Binding L X U) : List Sk → List (Micro L X U)
-  | [] => []
-  | s :: r => compile0 b s ++ compileList0 b r
-end
 
-mutual
-/-- compile a skeleton, splicing the (already compiled) code a callee runs after the `call` marker -/
-def compile (b : Binding L X U) (cb : Callee → List (Micro L X U)) : Sk → List (Micro L X U)
-  | .withLock l body => .acquire (b.lock l) :: (compileList b cb body ++ [.release (b.lock l)])
-  | .read x => [.load (b.var x)]
-  | .write x => [.store (b.var x) (b.upd x)]
-  | .rmw x => [.load (b.var x), .store (b.var x) (b.upd x)]
-  | .copy x => [.load (b.var x)]
-  | .iterate x body => .iterBegin (b.var x) :: (compileList b cb body ++ [.iterEnd (b.var x)])
-  | .callUser c => .call true c :: cb c
-  | .callLib c => .call false c :: cb c
-  | .yield => [.yield]
-def compileList (b : Binding L X U) (cb : Callee → List (Micro L X U)) : List Sk → List (Micro L X U)
-  | [] => []
-  | s :: r => compile b cb s ++ compileList b cb r
-end
+def compileToks (b : Binding L X U) (cb : Callee → List (Micro L X U)) (ts : List Tok) : List (Micro L X U) :=
+  ts.flatMap (tokMicro b cb)
+
+/-- the micro-step code of a method skeleton -/
+def compile (b : Binding L X U) (cb : Callee → List (Micro L X U)) (sk : List Sk) : List (Micro L X U) :=
+  compileToks b cb (flatList sk)
+
+/-- no callee runs library code -/
+def noCb : Callee → List (Micro L X U) := fun _ => []
+
+/-- renaming of locks, cells and labels -/
+def Micro.map {L' X' U' : Type} (fL : L → L') (fX : X → X') (fU : U → U') : Micro L X U → Micro L' X' U'
+  | .acquire l => .acquire (fL l)
+  | .release l => .release (fL l)
+  | .load x => .load (fX x)
+  | .store x u => .store (fX x) (fU u)
+  | .iterBegin x => .iterBegin (fX x)
+  | .iterEnd x => .iterEnd (fX x)
+  | .call b c => .call b c
+  | .yield => .yield
 
 end Compile
+
+/-- the canonical binding: one object of each kind, labels are the variable names -/
+def canon : Binding LockId Var Var := { lock := id, var := id, upd := id }
+
+abbrev CMicro := Micro LockId Var Var
 
 end PromVerif.Model.Conc
